@@ -212,6 +212,26 @@ impl Part {
     }
 }
 
+/// The piece raptor_code's `Partition::new(n, k).create_source_block` cuts at `esi` out of the block of `k`
+/// symbols that starts at byte `start` of `te` (n = the block's bytes, the last block may be short);
+/// `None` when the block is a multiple of E (then the pieces ARE the E-byte slices) or out of range.
+fn raptor_piece(te: &[u8], start: u64, k: u64, e: u64, esi: u64) -> Option<&[u8]> {
+    let start = start as usize;
+    if start >= te.len() || k == 0 || esi >= k {
+        return None;
+    }
+    let end = (start + (k * e) as usize).min(te.len());
+    let n = (end - start) as u64;
+    if n % e == 0 {
+        return None;
+    }
+    let is = n / k;
+    let il = (n + k - 1) / k;
+    let jl = n - is * k;
+    let (off, sz) = if esi < jl { (esi * il, il) } else { (jl * il + (esi - jl) * is, is) };
+    Some(&te[start + off as usize..start + (off + sz) as usize])
+}
+
 #[derive(Clone, Debug)]
 struct Obs {
     sbn: u32,
@@ -818,7 +838,11 @@ fn oracle(s: &Sess, o: &mut Oracle) {
                 if !(ok_short || ok_padded) {
                     // D22 (finding): Raptor cuts a block whose length is not a multiple of E (the last one) into
                     // semi-equal symbols
-                    let cls = if s.scheme == "raptor" && l % s.e != 0 && p.sbn as u64 + 1 == part.n {
+                    // (finding benc-2): the class is ONLY the exact mechanism - the payload is the piece raptor_code's
+                    // own partition (raptor-code partition.rs: n bytes into k semi-equal pieces, `n - floor(n/k)*k`
+                    // long ones of ceil(n/k) bytes first, then floor(n/k)-byte ones) cuts at this ESI; any other
+                    // wrong bytes are the generic class, a violation
+                    let cls = if s.scheme == "raptor" && raptor_piece(&s.te, part.first(p.sbn as u64) * s.e, k, s.e, p.esi as u64) == Some(&p.payload[..]) {
                         "raptor-symbol-split-unaligned-block"
                     } else {
                         "payload-not-slice"
@@ -893,9 +917,9 @@ fn oracle(s: &Sess, o: &mut Oracle) {
                 }
                 cat.truncate(s.te.len());
                 if cat != s.te {
-                    if !(s.scheme == "raptor" && l % s.e != 0) {
-                        o.fail("reassembly-differs", &format!("source payloads in (SBN,ESI) order trimmed to L differ from the transfer-encoded object (transfer {}) {}", ti, ctxs));
-                    }
+                    // no exemption for Raptor: its semi-equal pieces are contiguous and unpadded, so their
+                    // concatenation is the block as well
+                    o.fail("reassembly-differs", &format!("source payloads in (SBN,ESI) order trimmed to L differ from the transfer-encoded object (transfer {}) {}", ti, ctxs));
                 } else if s.cenc != Cenc::Null {
                     match decompress(&cat, s.cenc) {
                         Some(x) if x == s.obj => {}
